@@ -251,7 +251,7 @@ pub fn after_step(b: &Built, spec: &CaseSpec, st: &mut State, w: &Which) {
                 c10_step(b, g, st, *n, from, to, o)
             }
         },
-        Topo::Flatten(_) if w.c11 => {
+        Topo::Flatten(_) | Topo::FlattenRepeat(_) if w.c11 => {
             for o in 0..b.probes.len() {
                 c11_step(b, g, st, from, to, o)
             }
@@ -308,7 +308,8 @@ fn c04_step(b: &Built, g: &mut Inner, st: &mut State, from: usize, to: usize) {
             let owner = g.edges[e].owner;
             let culprit = g.edges[e].below.clone();
             bump(st, "c04.subscription");
-            if !matches!(b.topo, Topo::Share(_)) {
+            let repeated_inner = b.info.repeat_inner && p == 1;
+            if !matches!(b.topo, Topo::Share(_)) && !repeated_inner {
                 // at most once per subscription of the output
                 let dup = (0..k).any(|kk| {
                     edge_of_puppet(g, p as usize, kk as usize).map(|ee| g.edges[ee].owner == owner).unwrap_or(false)
@@ -381,9 +382,42 @@ fn c04_step(b: &Built, g: &mut Inner, st: &mut State, from: usize, to: usize) {
     }
 }
 
+/// for_each as a sink: f sees every datum exactly once, in order; it pulls once when greeted and
+/// once after every datum, and never otherwise (C04: "for_each obeys the sink side of the protocol").
+fn for_each_end(b: &Built, g: &mut Inner, st: &mut State) {
+    if b.puppets.len() != 1 {
+        return;
+    }
+    let pe = match edge_of_puppet(g, 0, 0) {
+        Some(e) => e,
+        None => return,
+    };
+    let sent: Vec<i64> = evs(g, pe, Dir::Down, &[Kind::Data]).iter().map(|i| g.events[*i].val.a[0]).collect();
+    let seen = b.foreach_seen.lock().unwrap().clone();
+    bump(st, "c04.for_each");
+    if sent != seen {
+        report(g, st, &["C04"], "for_each-did-not-pass-every-datum-to-f", "for_each", pe, -1, format!("source sent {:?}, f was called with {:?}", sent, seen));
+    }
+    let t = times(g, pe);
+    if t.greet_ev >= 0 {
+        let pulls = evs(g, pe, Dir::Up, &[Kind::Pull]).len();
+        // one for the greeting, one per datum that was delivered while the source was still live
+        let want = 1 + evs(g, pe, Dir::Down, &[Kind::Data]).len();
+        if pulls != want {
+            report(g, st, &["C04"], "for_each-pull-count", "for_each", pe, -1, format!("for_each sent {} Pulls for a greeting and {} data", pulls, want - 1));
+        }
+        if t.uterm_ev >= 0 {
+            report(g, st, &["C04"], "for_each-disposed-its-source", "for_each", pe, t.uterm_ev, String::new());
+        }
+    }
+}
+
 /// V6 and the sibling clause of C05, evaluated when the run is over.
 fn orphans(b: &Built, g: &mut Inner, st: &mut State, w: &Which) {
     if matches!(b.topo, Topo::ForEach) {
+        if w.c04 {
+            for_each_end(b, g, st);
+        }
         return;
     }
     let now = g.clock + 1;
@@ -549,6 +583,26 @@ fn c05_step(b: &Built, g: &mut Inner, st: &mut State, from: usize, to: usize) {
 fn c07_step(b: &Built, g: &mut Inner, st: &mut State, u: UnOp) {
     if b.puppets[0].mode() != Mode::Listen {
         return;
+    }
+    // the user closure (map's f, filter's predicate, scan's reducer) runs exactly once per input:
+    // a second evaluation is invisible for a pure closure and wrong for any other
+    if matches!(u, UnOp::Map | UnOp::Filter { .. } | UnOp::Scan { .. }) {
+        let inputs: usize = puppet_edges(g).into_iter().map(|e| evs(g, e, Dir::Down, &[Kind::Data]).len()).sum();
+        let calls = b.closure_calls.load(std::sync::atomic::Ordering::SeqCst);
+        bump(st, "c07.closure-calls");
+        if calls != inputs {
+            let op = b.op.clone();
+            report(
+                g,
+                st,
+                &["C07"],
+                "closure-not-called-once-per-input",
+                &op,
+                0,
+                -1,
+                format!("upstream delivered {} data, the user closure ran {} times", inputs, calls),
+            );
+        }
     }
     // one comparison per subscription of the output: sink i against the upstream subscription
     // that was made for it
@@ -1133,8 +1187,17 @@ fn c11_step(b: &Built, g: &mut Inner, st: &mut State, from: usize, to: usize, ow
     let ts = times(g, se);
     let to_ = times(g, oe);
     let n_inner = b.info.inners.len();
-    let inner: Vec<Option<Member>> =
-        (1..=n_inner).map(|p| edge_of_puppet_owned(g, p, owner).map(|e| Member { edge: e, t: times(g, e) })).collect();
+    // indexed by emission ordinal of the outer. Normally emission k carries inner puppet k+1; when
+    // the outer emits the same source value every time, emission k belongs to the k-th subscription
+    // of puppet 1 made for this output subscription
+    let inner: Vec<Option<Member>> = if b.info.repeat_inner {
+        let subs: Vec<EdgeId> = (0..g.edges.len())
+            .filter(|i| matches!(g.edges[*i].role, Role::Puppet(1, _)) && g.edges[*i].owner == owner as i32)
+            .collect();
+        (0..n_inner).map(|k| subs.get(k).map(|e| Member { edge: *e, t: times(g, *e) })).collect()
+    } else {
+        (1..=n_inner).map(|p| edge_of_puppet_owned(g, p, owner).map(|e| Member { edge: e, t: times(g, e) })).collect()
+    };
     let active_at = |g: &Inner, t: u32| -> Option<usize> {
         let _ = g;
         inner.iter().position(|m| m.as_ref().map(|m| m.t.live_at(t)).unwrap_or(false))
